@@ -92,6 +92,9 @@ def strategy(cell, tier):
     d = cell["d"]
     strata = ("moderate",) * 3 if f64 else opcheck.STRATA_BY_DIM[d]
     allb = ("moderate",) if f64 else opcheck.STRATA_BY_DIM[d]
+    if cell.get("law") == "normfunc" and d == 4:
+        # the 4D norm is signed: space-like vectors exercise the negative branch of abs/square/power
+        strata = ("moderate", "spacelike", "octant", "spacelike")
     parts = []
     for s in strata:
         parts.append(st.fixed_dictionaries({
@@ -297,6 +300,10 @@ def _normfunc(cell, sub, ctx):
             if nrm > 0 and (n >= 0 or nrm > mpf("1e-6")):
                 chk(f"numpy.power(v,{n})", numpy.power(v, n), nrm ** mpf(n))
                 chk(f"v**{n}", v**n, nrm ** mpf(n))
+        elif n2 < 0 and isinstance(n, int) and nrm < -mpf("1e-6"):
+            # space-like: the norm tau is negative; integer powers of it are still real functions of the norm
+            chk(f"numpy.power(v,{n})", numpy.power(v, n), nrm ** n)
+            chk(f"v**{n}", v**n, nrm ** n)
     except ZeroDivisionError:
         raise Skip("singular") from None
     except Exception as e:  # noqa: BLE001
